@@ -27,10 +27,12 @@ ConvR(a, fs, fd) == IF fd >= fs THEN ZShl(a, fd - fs) ELSE ZFloorShr(a, fs - fd)
 Lossless(a, fs, fd) == fd >= fs \/ ZEq(ZShl(ZFloorShr(a, fs - fd), fs - fd), a)
 
 (* ------------------------------ floats ---------------------------------- *)
-FPrec(ft) == IF ft = 32 THEN 24 ELSE 53
-FEBits(ft) == IF ft = 32 THEN 8 ELSE 11
-FBias(ft) == IF ft = 32 THEN 127 ELSE 1023
-FEMax(ft) == IF ft = 32 THEN 255 ELSE 2047
+\* float formats by total width: 32 and 64 are IEEE binary32 / binary64; 8 (1+4+3) and 10 (1+5+4) are miniature
+\* formats of the same parametric shape, used only by the small-width design model tla/mc/MC_Float
+FPrec(ft)  == CASE ft = 32 -> 24  [] ft = 64 -> 53   [] ft = 8 -> 4  [] ft = 10 -> 5
+FEBits(ft) == CASE ft = 32 -> 8   [] ft = 64 -> 11   [] ft = 8 -> 4  [] ft = 10 -> 5
+FBias(ft)  == CASE ft = 32 -> 127 [] ft = 64 -> 1023 [] ft = 8 -> 7  [] ft = 10 -> 15
+FEMax(ft)  == CASE ft = 32 -> 255 [] ft = 64 -> 2047 [] ft = 8 -> 15 [] ft = 10 -> 31
 
 FDec(bits, ft) ==
   LET p  == FPrec(ft)
